@@ -35,3 +35,28 @@ fn c03_listed_domains_cover_in_any_spelling() {
     assert!(n > 1000);
     assert!(bad.is_empty(), "{} of {n} cases: {:#?}", bad.len(), &bad[..bad.len().min(12)]);
 }
+
+/// OBL C03.witness.unknown_source
+#[test]
+fn c03_a_request_without_a_known_source_comes_from_no_listed_domain() {
+    // "A rule applies to a request only if every option on it is satisfied": with no (or an unparseable) source URL a positive
+    // `$domain=` list is not satisfied, a purely negative one is - whatever bucket of the index the rule happens to live in (one
+    // domain: indexed by the domain; several: by a pattern token; `||host` rules: by the host).  Regression inputs of the fix that made
+    // check_options refuse a positive list for an unknown source (found by the rule-by-rule differential fuzz run).
+    let cases = [("ads$domain=a.com", false), ("ads$domain=a.com|b.com", false), ("ads$domain=~a.com", true), ("ads$domain=a.com|~x.a.com", false), ("ads$domain=a.com,script", false),
+                 ("||x.test^$domain=a.com", false), ("||x.test^$domain=a.com|b.com", false), ("||x.test^$domain=~a.com|~b.com", true), ("/ads$domain=a.com|b.com|c.com", false)];
+    for (rule, applies) in cases {
+        for src in ["", "not a url"] {
+            for optimize in [false, true] {
+                let e = Engine::from_rules_parametrised([rule, "zzz$domain=a.com|b.com"], ParseOptions::default(), true, optimize);
+                let req = Request::new("https://x.test/ads", src, "script").unwrap();
+                assert_eq!(e.check_network_request(&req).matched, applies, "`{rule}` for a request with source {src:?} (optimize={optimize})");
+            }
+        }
+        // control: with a source in a.com the positive lists are satisfied
+        if !applies {
+            let req = Request::new("https://x.test/ads", "https://a.com/", "script").unwrap();
+            assert!(Engine::from_rules([rule], ParseOptions::default()).check_network_request(&req).matched, "control `{rule}` from a.com");
+        }
+    }
+}
